@@ -483,9 +483,13 @@ impl CoreApi for Enforcer {
     ) -> Result<Self> {
         let mut e = Self::new_raw(m, a).await?;
 
-        // Do not initialize the full policy when using a filtered adapter
+        // Do not initialize the full policy when using a filtered adapter:
+        // the rules the given model already holds stay in force, so their
+        // role links have to be built here
         if !e.adapter.is_filtered() {
             e.load_policy().await?;
+        } else {
+            e.build_role_links()?;
         }
         Ok(e)
     }
